@@ -60,7 +60,7 @@ CLAIMED = {
    technique='Lean 4 theorems (loop invariants per pass, lifted through the recursion scheme) + differential correspondence on full trees',
    design='§7 C02'),
  'C03': dict(
-   text='Theorems over the pure model: leaves_are_the_lexer_tokens(_strict) and only_wildcard_is_retyped (leaf by leaf same value; where the type differs the lexer token was Wildcard and the leaf is Operator; all 25 passes), groups_nonempty, navigation specs (get_token_at_offset for every offset, token_next/prev/first/index). Theorems over a HEAP model of the mutable side (SqlModel/Bookkeeping.lean: TokenList.__init__ and group_tokens with object identity, parent references and cached values): bookkeeping_every_history — the Statement built by the splitter, regrouped by ANY script of group_tokens calls (any receiver, class, non-empty slice, extend on/off; raising calls change nothing) stays a well-formed heap: every child names its container as parent, no object occurs twice, the graph is acyclic, no group is empty, every cached value equals str() of the group. Refinement (SqlProofs/BookkeepingAbs*): the abstraction of a well-formed heap to a pure tree exists and is unique; one heap group_tokens call = the pure groupTokens on the child list of the receiver with a frame and a path clause; statement_history_refines_pure — after ANY script of calls the heap is well-formed AND its abstraction equals the pure tree obtained by the same calls at the corresponding paths. Tie: S-TREE/S-ACC (pure model), S-HEAP (random call scripts on real sqlparse objects, whole heap compared), a syntactic confinement check that grouping.py mutates the tree only through group_tokens, and the oracle on every node of every sampled real tree.',
+   text='Theorems over the pure model: leaves_are_the_lexer_tokens(_strict) and only_wildcard_is_retyped (leaf by leaf same value; where the type differs the lexer token was Wildcard and the leaf is Operator; all 25 passes), groups_nonempty, navigation specs (get_token_at_offset for every offset, token_next/prev/first/index). Theorems over a HEAP model of the mutable side (SqlModel/Bookkeeping.lean: TokenList.__init__ and group_tokens with object identity, parent references and cached values): bookkeeping_every_history — the Statement built by the splitter, regrouped by ANY script of group_tokens calls (any receiver, class, non-empty slice, extend on/off; raising calls change nothing) stays a well-formed heap: every child names its container as parent, no object occurs twice, the graph is acyclic, no group is empty, every cached value equals str() of the group. Refinement (SqlProofs/BookkeepingAbs*): the abstraction of a well-formed heap to a pure tree exists and is unique; one heap group_tokens call = the pure groupTokens on the child list of the receiver with a frame and a path clause; statement_history_refines_pure — after ANY script of calls the heap is well-formed AND its abstraction equals the pure tree obtained by the same calls at the corresponding paths. Every pure grouping pass is such a script (all 25 passes; group_operator re-typing = one set-ttype operation), hence grouped_statement_is_a_wellformed_object_graph: the tree the pure model computes for any token list is the unique abstraction of a well-formed heap reached from the Statement of the splitter by returning group_tokens/set-ttype operations. Tie: S-TREE/S-ACC (pure model), S-HEAP (random call scripts on real sqlparse objects, whole heap compared), a syntactic confinement check that grouping.py mutates the tree only through group_tokens, and the oracle on every node of every sampled real tree.',
    note='Ghost rank/text functions witness acyclicity and the text equations; recursion budget of str() must exceed number of calls + 1. within/has_ancestor/is_child_of are compared with the path-based model by S-ACC.',
    technique='Lean 4 theorems over the grouping and accessor models + oracle over real object graphs + differential correspondence',
    design='§7 C03'),
